@@ -2,6 +2,7 @@
  *   C08: one cbor_stream_decode call vs the one-head reference tokeniser
  *   C09: a buffering client fed with fragments vs tokenisation of the whole stream
  *   C10: cbor_encode_* vs independently computed RFC heads, and decode-back      */
+#include <sys/mman.h>
 #include "vh.h"
 
 static int P; /* 8, 9, 10 */
@@ -795,6 +796,65 @@ static void c10_exh32(void) {
   for (int e = 0; e < E_N; e++) if (enc_hits[e]) { char nm[64]; snprintf(nm, sizeof nm, "encoder_ok.%s", enc_names[e]); vh_count_dyn(nm, enc_hits[e]); }
 }
 
+/* ------------------------------------------------------------------ vast buffers (C09, C08)
+ * A definite string of 2^33 .. 2^46 bytes at the start of a read-only region of that size (never touched beyond the head:
+ * the decoder hands out a pointer, it does not read the payload). With B bytes buffered and the item incomplete the wait
+ * must report nothing consumed and ask for more than B and for no more than the item occupies; with the item complete
+ * it is delivered whole. descriptor: 'V' + u8 major type + u64 declared length + u64 buffered */
+static uint8_t* g_vast; static size_t g_vast_len;
+static void vast_case(unsigned mt, uint64_t D, uint64_t B) {
+  uint8_t desc[18] = {'V', (uint8_t)mt};
+  for (int i = 0; i < 8; i++) { desc[2 + i] = (uint8_t)(D >> (56 - 8 * i)); desc[10 + i] = (uint8_t)(B >> (56 - 8 * i)); }
+  if (!vh_case(desc, 18)) return;
+  if (!g_vast) {
+    for (g_vast_len = ((size_t)1 << 46) + ((size_t)2 << 20); g_vast_len > ((size_t)1 << 34); g_vast_len >>= 1) {
+      g_vast = mmap(NULL, g_vast_len, PROT_READ, MAP_PRIVATE | MAP_ANONYMOUS | MAP_NORESERVE, -1, 0);
+      if (g_vast != MAP_FAILED) break;
+      g_vast = NULL;
+    }
+    if (!g_vast) vh_die("vast buffers: no address space");
+    if (mprotect(g_vast, 4096, PROT_READ | PROT_WRITE)) vh_die("vast buffers: mprotect failed");
+  }
+  const unsigned __int128 full = (unsigned __int128)D + 9;
+  if (full > g_vast_len || B > g_vast_len) { VH_COUNT("vast.skipped_no_address_space", 1); return; }
+  g_vast[0] = (uint8_t)(mt << 5 | 27);
+  for (int i = 0; i < 8; i++) g_vast[1 + i] = (uint8_t)(D >> (56 - 8 * i));
+  int ctx;
+  rec_expected_ctx = &ctx;
+  rec_reset();
+  struct cbor_decoder_result res = cbor_stream_decode(g_vast, (size_t)B, &rec_table, &ctx);
+  if (B < 9) {
+    if (res.status != CBOR_DECODER_NEDATA || res.read || rec_n || res.required <= B || res.required > 9)
+      vh_violation("nedata-contract", "head of a %llu-byte string, %llu bytes buffered: status %s, read %zu, %d callbacks, required %zu", (unsigned long long)D, (unsigned long long)B, st_name(res.status), res.read, rec_n, res.required);
+  } else if ((unsigned __int128)B < full) {
+    if (res.status != CBOR_DECODER_NEDATA || res.read || rec_n)
+      vh_violation("nedata-contract", "%llu-byte string, %llu bytes buffered: status %s, read %zu, %d callbacks (nothing may be consumed or delivered)", (unsigned long long)D, (unsigned long long)B, st_name(res.status), res.read, rec_n);
+    else if (res.required <= B || (unsigned __int128)res.required > full)
+      vh_violation("required-out-of-range", "%llu-byte string (encoding %llu bytes), %llu bytes buffered: the wait asks for %zu; it must ask for more than is buffered and for no more than the item occupies", (unsigned long long)D,
+                   (unsigned long long)(D + 9), (unsigned long long)B, res.required);
+  } else {
+    if (res.status != CBOR_DECODER_FINISHED || res.read != (size_t)full || rec_n != 1 || rec_ev[0].len != D || rec_ev[0].ptr != g_vast + 9 || rec_ev[0].slot != (mt == 2 ? S_BSTR : S_STR))
+      vh_violation("finished-contract", "complete %llu-byte string in a %llu-byte buffer: status %s, read %zu, %d callbacks, length %llu", (unsigned long long)D, (unsigned long long)B, st_name(res.status), res.read, rec_n,
+                   rec_n ? (unsigned long long)rec_ev[0].len : 0ull);
+  }
+  if (rec_bad_ctx) vh_violation("stream-wrong-context", "a callback received a context pointer other than the caller's");
+  VH_COUNT("vast.buffer_cases", 1);
+  if (B >= ((uint64_t)1 << 39)) VH_COUNT("vast.cases_with_2^39_bytes_or_more_buffered", 1);
+  if (B >= ((uint64_t)1 << 45)) VH_COUNT("vast.cases_with_2^45_bytes_or_more_buffered", 1);
+  vh_nontrivial(vh_hash(desc, 18));
+}
+static void vast_all(void) {
+  static const uint64_t Ds[] = {((uint64_t)1 << 33) + 5, ((uint64_t)1 << 36), ((uint64_t)1 << 39) - 9, ((uint64_t)1 << 39) - 8, ((uint64_t)1 << 39), ((uint64_t)1 << 39) + 1, ((uint64_t)1 << 40) + 12345, ((uint64_t)1 << 42),
+                                ((uint64_t)3 << 42) + 77, ((uint64_t)1 << 45) + 7, ((uint64_t)1 << 46) - 9, ((uint64_t)1 << 46)};
+  int k = 0;
+  for (size_t di = 0; di < sizeof Ds / sizeof Ds[0]; di++) for (unsigned mt = 2; mt <= 3; mt++) {
+    uint64_t D = Ds[di];
+    const uint64_t Bs[] = {0, 1, 8, 9, 10, ((uint64_t)1 << 32) + 1, ((uint64_t)1 << 36) + 3, ((uint64_t)1 << 39) - 1, (uint64_t)1 << 39, ((uint64_t)1 << 39) + 1, ((uint64_t)1 << 40), ((uint64_t)1 << 43) + 9, ((uint64_t)1 << 45),
+                           D / 2 + 9, D, D + 8, D + 9, D + 10, D + 9 + ((uint64_t)1 << 20)};
+    for (size_t bi = 0; bi < sizeof Bs / sizeof Bs[0]; bi++) if (k++ % O.nshards == O.shard) vast_case(mt, D, Bs[bi]);
+  }
+}
+
 /* ------------------------------------------------------------------ entry */
 static void setup(void) {
   P = atoi(O.prop + 1);
@@ -805,7 +865,11 @@ static void setup(void) {
 }
 static void stream_run(void) {
   setup();
-  if (P == 8 && !strcmp(O.stage, "huge")) {
+  if ((P == 8 || P == 9) && !strcmp(O.stage, "vast")) {
+    vast_all();
+    vh_set_rule("each case is a definite byte or text string of 2^33 .. 2^46 bytes at the start of a read-only region of that size, decoded with 0 .. 2^46 bytes claimed as buffered: an incomplete item consumes nothing, delivers nothing and asks for more than is buffered and no more than the item occupies; a complete one is delivered whole with its exact length; distinct by (type, declared length, buffered)");
+    vh_set_exhaustive(false);
+  } else if (P == 8 && !strcmp(O.stage, "huge")) {
     c08_huge_all();
     vh_set_rule("each case is an item head (and payload) at the start of a region larger than 4 GiB, decoded with a claimed buffer length of 2^32-1 .. 2^33+65536; the outcome must equal that of the same bytes in an exactly-sized buffer; distinct by hash of (claimed length, bytes)");
     vh_set_exhaustive(false);
@@ -833,6 +897,7 @@ static void stream_run(void) {
 }
 static void stream_exec(const uint8_t* d, size_t n) {
   setup();
+  if (n == 18 && d[0] == 'V' && !strcmp(O.stage, "vast")) { uint64_t D = 0, B = 0; for (int i = 0; i < 8; i++) { D = D << 8 | d[2 + i]; B = B << 8 | d[10 + i]; } vast_case(d[1], D, B); return; }
   if (P == 8 && n >= 9 && d[0] == 'H' && !strcmp(O.stage, "huge")) { size_t c = 0; for (int i = 0; i < 8; i++) c = c << 8 | d[1 + i]; c08_huge_case(d + 9, n - 9, c); return; }
   if (P == 8) { c08_case(d, n); return; }
   if (P == 10) { if (n != 9) { printf("bad C10 descriptor\n"); return; } uint64_t v = 0; for (int i = 0; i < 8; i++) v = v << 8 | d[1 + i]; c10_case(d[0], v); return; }
